@@ -27,7 +27,7 @@ RULE = ("systematic product {child behaviour} x {exit path} x {moment} x {entry 
 PROBES = ["exit_under_cancel_scope", "exit_under_task_cancel", "exit_under_fail_after", "exit_by_exception", "sigterm_ignored_then_killed",
           "child_already_dead_at_exit", "cancel_landed_inside_aexit", "request_pending_when_child_died", "spawn_failed", "writer_blocked_at_exit",
           "flood_at_exit"]
-TIERS = {"quick": {"runs": 3000, "wall": 45.0}, "thorough": {"runs": 150000, "wall": 540.0}}
+TIERS = {"quick": {"runs": 20000, "wall": 45.0}, "thorough": {"runs": 2000000, "wall": 560.0}}
 ASSUMPTIONS = [
     "real descriptors and /proc state are modelled: a pipe handle is released iff the child is dead or the handle was closed (asyncio's subprocess transport behaviour); kernel-level leaks are out of reach",
     "exit time bound = 2.0 s (two grace periods) + the scenario's modelled SIGTERM/SIGKILL delivery latencies; zero scheduling slack in virtual time",
